@@ -8,7 +8,7 @@ leave the caller's matrices untouched).  Oracle: dense symmetric reference eigh(
 from .core import Result, Violation, HarnessError, EventLog, bump, rng_for, sha_bytes, settle
 
 PROP = 'C06'
-TIMEOUT = 240
+TIMEOUT = 900
 BATCHES = {
     'quick': [('F0', 2600), ('FI', 500), ('M', 200)],
     'thorough': [('F0', 160000), ('FI', 30000), ('M', 10000)],
